@@ -214,7 +214,27 @@ int main(int argc, char** argv)
       std::vector<long> ix; long v;
       while (ss >> v) ix.push_back(v);
       try {
-         if (not dispatch(w, key, ix)) std::printf("F %s args=- :: unknown-factory\n", key.c_str());
+         if (key == "N:qualified" and ix.size() == 3) {
+            // the documented normal form: qualifying a qualified type merges the qualifiers over the unqualified type
+            auto q1 = ipr::Qualifiers(U(ix[0], 7) + 1), q2 = ipr::Qualifiers(U(ix[1], 7) + 1);
+            auto& t = *w.types[U(ix[2], 12)];
+            auto& inner = w.lex.get_qualified(q1, t);
+            auto& outer = w.lex.get_qualified(q2, inner);
+            auto& direct = w.lex.get_qualified(q1 | q2, t);
+            std::printf("F N:qualified args=%s;%s;%s :: qualifiers=%s main_variant=%s same=%d inner_qualifiers=%s\n", show(q1).c_str(), show(q2).c_str(),
+                        show(t).c_str(), show(outer.qualifiers()).c_str(), show(outer.main_variant()).c_str(), int(&outer == &direct),
+                        show(inner.qualifiers()).c_str());
+         }
+         else if (key == "N:transfer" and ix.size() == 3) {
+            // the other documented normal form: the natural C++ transfer is not recorded
+            auto& p = *w.prods[U(ix[0], 6)]; auto& t = *w.types[U(ix[1], 12)]; auto& e = *w.exprs[U(ix[2], 12)];
+            auto& natural = w.lex.get_transfer(w.lex.cxx_linkage(), impl::cxx_transfer().convention());
+            auto& with = w.lex.get_function(p, t, e, natural);
+            auto& without = w.lex.get_function(p, t, e);
+            std::printf("F N:transfer args=%s;%s;%s :: same=%d transfer=%s source=%s target=%s throws=%s\n", show(p).c_str(), show(t).c_str(), show(e).c_str(),
+                        int(&with == &without), show(with.transfer()).c_str(), show(with.source()).c_str(), show(with.target()).c_str(), show(with.throws()).c_str());
+         }
+         else if (not dispatch(w, key, ix)) std::printf("F %s args=- :: unknown-factory\n", key.c_str());
       }
       catch (const std::exception& e) { std::printf("F %s args=- :: harness-error(%s)\n", key.c_str(), e.what()); }
    }
